@@ -939,3 +939,34 @@ Proof.
   - replace ((w * 32 + 7) / 8) with (w * 4) in * by lia.
     apply (multi_byte_row 4 data w x y (fun bytes => if alt then from_be_bytes bytes else from_le_bytes bytes)); nia.
 Qed.
+
+(* ---- a drawable in terms of its root ImageRaw ---------------------------------------------- *)
+Fixpoint d_root (d : drawable) : image_raw :=
+  match d with Raw img => img | Sub parent _ => d_root parent end.
+
+(* where the drawable's top left corner lies in the root image: the sum of the (clipped) areas' corners *)
+Fixpoint d_origin (d : drawable) : point :=
+  match d with Raw _ => P 0 0 | Sub parent a => padd (tl a) (d_origin parent) end.
+
+Lemma padd_zero_r p : padd p (P 0 0) = p.
+Proof. destruct p as [x y]. unfold padd. cbn [px py]. f_equal; lia. Qed.
+
+(* every pixel any chain of sub images shows is the root's pixel() at the accumulated offset, and the shown
+   region lies inside the root's box *)
+Theorem d_pixel_root d : forall p,
+  d_wf d ->
+  d_pixel d p = (if contains (d_box d) p then raw_pixel (d_root d) (padd p (d_origin d)) else None) /\
+  (contains (d_box d) p = true -> contains (origin_box (ir_size (d_root d))) (padd p (d_origin d)) = true).
+Proof.
+  induction d as [img|parent IH a]; intros p H; cbn [d_wf d_pixel d_root d_origin] in *.
+  - rewrite padd_zero_r. unfold d_box. cbn [d_size]. split; [|tauto].
+    destruct (contains (origin_box (ir_size img)) p) eqn:Ec; [reflexivity|]. apply raw_pixel_outside. exact Ec.
+  - unfold d_box. cbn [d_size]. destruct (contains (origin_box (sz a)) p) eqn:Ec; [|split; [reflexivity|discriminate]].
+    destruct H as (Hp & Hn & [Hz|Hin]).
+    { exfalso. apply origin_box_contains in Ec. unfold is_zero_sized in Hz. lia. }
+    assert (Hc : contains (d_box parent) (padd p (tl a)) = true).
+    { apply origin_box_contains in Ec. destruct Hin as (Hw & Hh & Hx & Hy & Hxw & Hyh).
+      apply origin_box_contains. unfold padd. cbn [px py]. lia. }
+    destruct (IH (padd p (tl a)) Hp) as (E1 & E2). rewrite E1, Hc, padd_assoc. split; [reflexivity|].
+    intros _. rewrite <- padd_assoc. apply E2. exact Hc.
+Qed.
